@@ -167,4 +167,35 @@ impl UserHeader {
             r.is_err() ==> *final(self) == *old(self) && *final(code) == *old(code) && *final(receiver_user) == *old(receiver_user),
 //@body
 }
+
+// ---- the set_referrer instruction handler (programs/store/src/instructions/user.rs) ------------------------------------------
+/// AccountLoader<UserHeader>: load / load_mut are projections
+pub struct UserLoader { pub data: UserHeader }
+impl UserLoader {
+    pub fn load(&self) -> (r: Result<&UserHeader, E>) ensures r.is_ok() ==> *r.unwrap() == self.data { Ok(&self.data) }
+    pub fn load_mut(&mut self) -> (r: Result<&mut UserHeader, E>)
+        ensures r.is_ok(), *r.unwrap() == old(self).data, *final(self) == (UserLoader { data: *final(r.unwrap()) })
+    { Ok(&mut self.data) }
+}
+pub struct SetReferrerAccounts { pub user: UserLoader, pub referrer_user: UserLoader }
+pub struct SetReferrerCtx { pub accounts: SetReferrerAccounts }
+
+//@unit C33.set_referrer_handler
+//@ file programs/store/src/instructions/user.rs
+//@ fn set_referrer
+//@ sig fn set_referrer(ctx: Context<SetReferrer>, _code: ReferralCodeBytes) -> Result<()>
+pub fn set_referrer(ctx: &mut SetReferrerCtx, _code: u64) -> (r: Result<(), E>)
+    ensures
+        // NEVER MUTUAL: a user whose would-be referrer was referred by that very user is rejected
+        r.is_ok() ==> old(ctx).accounts.referrer_user.data.referral.referrer != old(ctx).accounts.user.data.owner,
+        // what a success does is exactly Referral::set_referrer on the two accounts: the user's referrer becomes the referrer
+        // account's owner (write-once), the referrer's referee counter grows, nothing else of either relation changes
+        r.is_ok() ==> old(ctx).accounts.user.data.referral.referrer == DEFAULT_PUBKEY
+            && final(ctx).accounts.user.data.referral.referrer == old(ctx).accounts.referrer_user.data.owner
+            && final(ctx).accounts.user.data.referral.referrer != DEFAULT_PUBKEY
+            && final(ctx).accounts.user.data.owner == old(ctx).accounts.user.data.owner
+            && final(ctx).accounts.referrer_user.data.referral.referrer == old(ctx).accounts.referrer_user.data.referral.referrer
+            && final(ctx).accounts.referrer_user.data.owner == old(ctx).accounts.referrer_user.data.owner,
+        r.is_err() ==> final(ctx).accounts == old(ctx).accounts,
+//@body
 } // verus!
